@@ -121,7 +121,7 @@ class Report:
         if self.violations:
             seen = set()
             # proof-obligation violations first, then at most a handful of failing inputs
-            ordered = sorted(self.violations, key=lambda v: 0 if v["what"].startswith("obligation") else 1)
+            ordered = sorted(self.violations, key=lambda v: 0 if v["what"].startswith("obligation") or "verified subset" in v["what"] else 1)
             for v in ordered:
                 if v["replay"] in seen:
                     continue
